@@ -205,6 +205,16 @@ def mc_family(tier):
             pats.append(path([step("child", t, *ps)]))
             pats.append(path([step("child", t, *ps), dict(DOS), step("child", t_name("b"))]))
             pats.append(path([step("child", t_name("a")), step("child", t, *ps)]))
+    # backtracking over '//': one, two and three steps left of a '//', two '//', anchors, id() head, predicates and
+    # wildcards on the steps that make the nearest ancestor fail
+    ca, cb, cany, cnode = step("child", t_name("a")), step("child", t_name("b")), step("child", T_ANY), step("child", T_NODE)
+    D = dict(DOS)
+    for steps in ([ca, cb, ca, D, cb], [cb, ca, ca, D, cb], [ca, D, cb, ca, D, cb], [cb, ca, D, ca, D, cb], [ca, ca, D, ca, D, cb],
+                  [step("child", t_name("a"), num(1)), ca, D, cb], [step("child", t_name("a"), MC_PREDS[2]), ca, D, cb],
+                  [cb, step("child", t_name("a"), num(1)), D, cb], [ca, cany, D, cb], [cany, ca, D, cnode], [cb, ca, D, step("attribute", t_name("x"))],
+                  [ca, ca, D, step("child", T_TEXT)], [cnode, cnode, D, cb], [cb, cany, ca, D, cany, D, cb]):
+        pats += [path(steps), path(steps, abs_=True), path([D] + steps, abs_=True)]
+    pats += [path([ca, ca, D, cb], start=idh), path([D, cb, ca, D, cb], start=idh)]
     seen, out = set(), []
     for p_ in pats:
         txt = xpgen.render(p_)
@@ -220,7 +230,9 @@ def mc_docs(tier):
               R(E("b", E("a", E("b", E("a", E("b", a=[A("x", "1")])), T("t"))), E("b"))),
               R(E("a", E("a", E("a", E("b", a=[A("x", "1")]), E("a", E("b"), E("b"))), E("b")), a=[A("id", "i1")])),
               R(E("b", E("b", E("a", E("a", T("t"), E("b", T("t"))), a=[A("id", "i2"), A("x", "1")])))),
-              c02.fixed_docs()[2], c02.fixed_docs()[4]]
+              c02.fixed_docs()[2], c02.fixed_docs()[4],
+              R(E("a", E("b", E("a", E("a", E("b", E("a", E("b", a=[A("x", "1")]), T("t")), E("b"))), E("b")), E("a", E("b"))))),   # deep a/b chains: the ancestor that fits is the 2nd or 3rd
+              R(E("b", E("a", E("a", E("a", E("b", E("b"), T("t"))), a=[A("id", "i1")]), E("a", E("b", E("a", E("a", E("b"))))))))]
     fam = list(xdm.enum_docs(5, texts=("t",)))           # all documents with <= 5 nodes over {a, b}, @x, text 't'
     if tier == "quick":
         fam = fam[::4]
@@ -233,7 +245,7 @@ def mc_pattern(tier, wd, workers):
     vlib.write_ndjson(pp, [{"text": xpgen.render(p_), "pat": xpgen.strip_render_only(p_)} for p_ in pats])
     vlib.write_ndjson(dp, [xdm.flatten(t, c02.ID_ATTRS) for t in docs])
     r = vlib.tlc_mc(MC, name="patmc", env={"DOCS": dp, "PATS": pp}, workers=workers, timeout=3000, extra=["-noGenerateSpecTE"])
-    return r, "MC_Pattern (PatternMatcherImpl vs XPathSem!MatchSet: %d patterns x %d documents, every node; known deviations named and shown real)" % (len(pats), len(docs))
+    return r, "MC_Pattern (PatternMatcherImpl vs XPathSem!MatchSet: %d patterns x %d documents, every node; no deviation class excluded)" % (len(pats), len(docs))
 
 
 def classify_rejects(rej_evs, dpath, tag="c09cl"):
